@@ -399,10 +399,24 @@ func init() {
 	stubs["fmt.Sprintln"] = stubs["fmt.Sprint"]
 	printer := func(m *Machine, fr *frame, fn *ssa.Function, args []value) value {
 		var s str
-		if fn.Name() == "Printf" {
+		switch fn.Name() {
+		case "Printf":
 			s = sprintfLike(m, args[0].(str), args[1])
-		} else {
-			s = sprintfLike(m, str{s: "<" + fn.Name() + ">"}, args[0])
+		default:
+			// Print / Println: operands formatted with %v, Println separates by blanks and ends the line
+			if sl, ok := args[0].(slice); ok && sl.len > 0 {
+				arr := sl.arr()
+				for i := 0; i < sl.len; i++ {
+					if i > 0 && fn.Name() == "Println" {
+						s = concatStr(s, str{s: " "})
+					}
+					one := m.newObject(array{arr[sl.off+i]}, nil)
+					s = concatStr(s, sprintfLike(m, str{s: "%v"}, slice{obj: one, len: 1, cap: 1}))
+				}
+			}
+			if fn.Name() == "Println" {
+				s = concatStr(s, str{s: "\n"})
+			}
 		}
 		m.stdout = append(m.stdout, s)
 		return tuple{mkConst(64, uint64(s.length())), iface{}}
@@ -420,9 +434,6 @@ func init() {
 		return mkConst(64, 0x1000+m.randCounter)
 	}
 	stubs["math/rand.Int"] = stubs["math/rand.Int63"]
-	stubs["(*os.File).WriteString"] = func(m *Machine, fr *frame, fn *ssa.Function, args []value) value {
-		return tuple{mkConst(64, uint64(args[1].(str).length())), iface{}}
-	}
 	stubs["internal/bytealg.IndexByteString"] = func(m *Machine, fr *frame, fn *ssa.Function, args []value) value {
 		s := args[0].(str)
 		c := args[1].(*Term)
@@ -537,7 +548,127 @@ func init() {
 	stubs["os.Exit"] = func(m *Machine, fr *frame, fn *ssa.Function, args []value) value {
 		m.exitCode = int(m.concInt(args[0], fr))
 		m.exited = true
+		if m.inMain {
+			panic(exitPanic{m.exitCode})
+		}
 		panic(pathEnd{kind: "exit", msg: fmt.Sprintf("os.Exit(%d)", m.exitCode)})
+	}
+	logFatal := func(m *Machine, fr *frame, fn *ssa.Function, args []value) value {
+		m.stderr = append(m.stderr, sprintfLike(m, str{s: "%v"}, args[0]))
+		m.exitCode = 1
+		m.exited = true
+		if m.inMain {
+			panic(exitPanic{1})
+		}
+		panic(pathEnd{kind: "exit", msg: "log.Fatal"})
+	}
+	stubs["log.Fatal"] = logFatal
+	stubs["log.Fatalln"] = logFatal
+	stubs["log.Fatalf"] = func(m *Machine, fr *frame, fn *ssa.Function, args []value) value {
+		m.stderr = append(m.stderr, sprintfLike(m, args[0].(str), args[1]))
+		m.exitCode = 1
+		if m.inMain {
+			panic(exitPanic{1})
+		}
+		panic(pathEnd{kind: "exit", msg: "log.Fatalf"})
+	}
+	// flag package: values come from the harness (vRunMain), parsing of argv is not modelled
+	flagCell := func(m *Machine, v value) value {
+		return pointer{obj: m.newObject(v, nil)}
+	}
+	stubs["flag.String"] = func(m *Machine, fr *frame, fn *ssa.Function, args []value) value {
+		name := concStrArg(args[0])
+		if v, ok := m.flagStr[name]; ok {
+			return flagCell(m, v)
+		}
+		return flagCell(m, args[1])
+	}
+	stubs["flag.Bool"] = func(m *Machine, fr *frame, fn *ssa.Function, args []value) value {
+		name := concStrArg(args[0])
+		if v, ok := m.flagBool[name]; ok {
+			return flagCell(m, v)
+		}
+		return flagCell(m, args[1])
+	}
+	stubs["flag.Int"] = func(m *Machine, fr *frame, fn *ssa.Function, args []value) value { return flagCell(m, args[1]) }
+	stubs["flag.Func"] = func(m *Machine, fr *frame, fn *ssa.Function, args []value) value {
+		m.flagFuncs = append(m.flagFuncs, flagFunc{concStrArg(args[0]), args[2]})
+		return nil
+	}
+	stubs["flag.Parse"] = func(m *Machine, fr *frame, fn *ssa.Function, args []value) value {
+		for _, ff := range m.flagFuncs {
+			if v, ok := m.flagStr[ff.name]; ok {
+				res := m.call(ff.fn, []value{v}, fr, nil)
+				if e, isI := res.(iface); isI && e.t != nil {
+					// flag.ExitOnError: message on stderr, usage, exit status 2
+					m.stderr = append(m.stderr, str{s: "invalid value for flag -" + ff.name})
+					m.exitCode = 2
+					if m.inMain {
+						panic(exitPanic{2})
+					}
+					panic(pathEnd{kind: "exit", msg: "flag error"})
+				}
+			}
+		}
+		return nil
+	}
+	stubs["flag.PrintDefaults"] = func(m *Machine, fr *frame, fn *ssa.Function, args []value) value {
+		m.stderr = append(m.stderr, str{s: "<usage>"})
+		return nil
+	}
+	stubs["runtime/pprof.StartCPUProfile"] = func(m *Machine, fr *frame, fn *ssa.Function, args []value) value { return iface{} }
+	stubs["runtime/pprof.StopCPUProfile"] = retNil
+	// vRunMain(flags): run the package's real main() under the flag/exit/stdout model
+	harnessAPI["vRunMain"] = func(m *Machine, fr *frame, fn *ssa.Function, args []value) value {
+		m.flagStr = map[string]value{}
+		m.flagBool = map[string]value{}
+		m.flagFuncs = nil
+		m.stdout = nil
+		m.stderr = nil
+		if sl, ok := args[0].(slice); ok && sl.len > 0 {
+			arr := sl.arr()
+			for i := 0; i+1 < sl.len; i += 2 {
+				name := concStrArg(arr[sl.off+i])
+				m.flagStr[name] = arr[sl.off+i+1]
+			}
+		}
+		if sl, ok := args[1].(slice); ok && sl.len > 0 {
+			arr := sl.arr()
+			for i := 0; i < sl.len; i++ {
+				m.flagBool[concStrArg(arr[sl.off+i])] = termTrue
+			}
+		}
+		mainFn := fn.Pkg.Func("main")
+		// package-level state of main is re-initialised by the harness (replaceModeArg)
+		exit := 0
+		func() {
+			defer func() {
+				if r := recover(); r != nil {
+					switch x := r.(type) {
+					case exitPanic:
+						exit = x.code
+					case *goPanic:
+						exit = 2 // an uncaught panic terminates the process with status 2
+						m.stderr = append(m.stderr, str{s: "panic: " + x.msg})
+						m.notes = append(m.notes, Note{Key: "panic", V: str{s: x.msg + " at " + innermostRepoFunc(x.site)}})
+					default:
+						panic(r)
+					}
+				}
+			}()
+			m.inMain = true
+			defer func() { m.inMain = false }()
+			m.callSSA(mainFn, nil, nil, fr, nil)
+		}()
+		out := str{}
+		for _, s := range m.stdout {
+			out = concatStr(out, s)
+		}
+		errs := str{}
+		for _, s := range m.stderr {
+			errs = concatStr(errs, s)
+		}
+		return tuple{mkConst(64, uint64(exit)), out, errs}
 	}
 	stubs["sync/atomic.LoadUint32"] = func(m *Machine, fr *frame, fn *ssa.Function, args []value) value {
 		return fr.load(args[0].(pointer))
@@ -545,12 +676,74 @@ func init() {
 	stubs["sync/atomic.LoadInt32"] = stubs["sync/atomic.LoadUint32"]
 	stubs["sync/atomic.LoadInt64"] = stubs["sync/atomic.LoadUint32"]
 	stubs["sync/atomic.LoadUint64"] = stubs["sync/atomic.LoadUint32"]
-	stubs["(*sync.Mutex).Lock"] = retNil
-	stubs["(*sync.Mutex).Unlock"] = retNil
-	stubs["(*sync.RWMutex).Lock"] = retNil
-	stubs["(*sync.RWMutex).Unlock"] = retNil
-	stubs["(*sync.RWMutex).RLock"] = retNil
-	stubs["(*sync.RWMutex).RUnlock"] = retNil
+	// mutexes: single-threaded execution never blocks, but the set of held locks is tracked for the
+	// lockset (Eraser-style) analysis of accesses to package-level variables (C19)
+	lockKey := func(v value) string {
+		p := v.(pointer)
+		if p.obj == nil {
+			return "nil"
+		}
+		if p.obj.global != nil {
+			return p.obj.global.String() + fmt.Sprint(p.path)
+		}
+		return fmt.Sprintf("obj%d%v", p.obj.id, p.path)
+	}
+	lock := func(m *Machine, fr *frame, fn *ssa.Function, args []value) value {
+		k := lockKey(args[0])
+		if m.heldLocks == nil {
+			m.heldLocks = map[string]int{}
+		}
+		if m.heldLocks[k] > 0 {
+			panic(pathEnd{kind: "fail", msg: "deadlock: sync.Mutex locked twice by the same call at " + fr.pos(), site: fr.stack()})
+		}
+		m.heldLocks[k]++
+		return nil
+	}
+	unlock := func(m *Machine, fr *frame, fn *ssa.Function, args []value) value {
+		k := lockKey(args[0])
+		if m.heldLocks[k] <= 0 {
+			panic(&goPanic{v: iface{t: types.Typ[types.String], v: str{s: "sync: unlock of unlocked mutex"}}, msg: "fatal error: sync: unlock of unlocked mutex", site: fr.stack()})
+		}
+		m.heldLocks[k]--
+		if m.heldLocks[k] == 0 {
+			delete(m.heldLocks, k)
+		}
+		return nil
+	}
+	rlock := func(m *Machine, fr *frame, fn *ssa.Function, args []value) value {
+		k := lockKey(args[0])
+		if m.heldLocks == nil {
+			m.heldLocks = map[string]int{}
+		}
+		m.heldLocks[k]++
+		return nil
+	}
+	stubs["(*sync.Mutex).Lock"] = lock
+	stubs["(*sync.Mutex).Unlock"] = unlock
+	stubs["(*sync.RWMutex).Lock"] = lock
+	stubs["(*sync.RWMutex).Unlock"] = unlock
+	stubs["(*sync.RWMutex).RLock"] = rlock
+	stubs["(*sync.RWMutex).RUnlock"] = unlock
+	harnessAPI["vUnsyncGlobals"] = func(m *Machine, fr *frame, fn *ssa.Function, args []value) value {
+		// number of repository package-level variables written on this path whose accesses do not all
+		// hold one common lock
+		n := 0
+		names := ""
+		for g, a := range m.globalAcc {
+			if a.written && !a.locked {
+				n++
+				names += g + " "
+			}
+		}
+		if n > 0 {
+			m.notes = append(m.notes, Note{Key: "unsynchronised", V: str{s: names}})
+		}
+		return mkConst(64, uint64(n))
+	}
+	harnessAPI["vAccessLogReset"] = func(m *Machine, fr *frame, fn *ssa.Function, args []value) value {
+		m.globalAcc = map[string]*globalAccess{}
+		return nil
+	}
 	stubs["(*sync.Once).Do"] = func(m *Machine, fr *frame, fn *ssa.Function, args []value) value {
 		p := args[0].(pointer)
 		key := fmt.Sprintf("once%d%v", p.obj.id, p.path)
